@@ -331,11 +331,20 @@ def integrated_checks(rep, rng, drv, k, inp, NQ, D, Dr, D0, a, b, c, convex, o, 
     eff = convex if mn is None else mn
     na = np.array([n])
     rep.count("integrated_curve_pairs")
-    with warnings.catch_warnings():
-        warnings.simplefilter("ignore")
-        v = float(D.average_tuning_curve(na, minimize=mn)[0])
-        vr = float(Dr.average_tuning_curve(na, minimize=None if mn is None else (not mn))[0])
-        v0 = float(D0.average_tuning_curve(na, minimize=mn)[0])
+    def three():
+        with warnings.catch_warnings():
+            warnings.simplefilter("ignore")
+            return (float(D.average_tuning_curve(na, minimize=mn)[0]),
+                    float(Dr.average_tuning_curve(na, minimize=None if mn is None else (not mn))[0]),
+                    float(D0.average_tuning_curve(na, minimize=mn)[0]))
+    status, val = Q.guarded_call(three, timeout=60.0, extra_mem=2 << 30)
+    if status != "ok":
+        # the call did not come back inside 60 s / 2 GiB: that is C08's subject ("returns without unbounded memory
+        # growth"); the C09 relation cannot be evaluated on this pair
+        rep.skip("integrated_curve_did_not_return_within_60s_2GiB(" + status + ")")
+        rep.notes.append(f"average_tuning_curve guard {status}: a={a!r} b={b!r} c={c} o={o!r} convex={convex} n={n!r} minimize={mn}")
+        return
+    v, vr, v0 = val
     S0 = 1.0 + 12 * s
     tol = 2e-4 * S
     rep.case(("navg_reflect", inp["a"], inp["b"], c, convex, inp["s"], mn, C.fhex(n)))
